@@ -1,6 +1,7 @@
 import VProps.C19
 import VProofs.ConcDnsClient
 import VDriver.Conc
+import VProofs.ConcDnsReplay
 #print axioms V.C19.dns_size_bounded
 #print axioms V.C19.dns_no_dup_keys
 #print axioms V.C19.dns_no_stale_served
@@ -56,3 +57,12 @@ import VDriver.Conc
 #print axioms V.C19Client.clientReach_poke
 -- the definition the driver replays client ops with IS the one the injection theorems are about
 example : @V.Driver.ConcOps.injectOps = @V.C19Client.injectOps := rfl
+#print axioms V.C19Replay.dnsReplayBoth_fst
+#print axioms V.C19Replay.dnsReplayBoth_line
+#print axioms V.C19Replay.dnsReplayBoth_clientReach
+#print axioms V.C19Replay.dnsReplayStates_clientReach
+#print axioms V.C19Replay.dnsModel_eq
+#print axioms V.C19Replay.dnsModel_lines
+#print axioms V.C19Replay.dnsModel_states_clientReach
+#print axioms V.C19Replay.dnsModel_states_bounded
+#print axioms V.C19Replay.dnsModel_allStates_bounded
